@@ -5,8 +5,8 @@ CONSTANTS
   MaxReorgs = 1
   MaxCrashes = 0
   Gates = {}
-  Interleave = FALSE
-  Cfgs <- MCCfgs
+  Interleave = TRUE
+  Cfgs <- MCCfgsFork0
   OraclesFor <- MCOraclesA
 INVARIANTS TypeOK JobTimeRight JobCoversExactly NoSlotTwice OneJobPerDutySlot OnlyStrictlyLaterOnStart SyncWindowRight EpochTickOnce NoFutureDutyUnscheduled NoStaleJob ReorgActedOn
 CHECK_DEADLOCK FALSE
